@@ -447,6 +447,25 @@ def eval_expr(expr, scale_of, dimvec_of, lookup=None):
     raise KeyError(type(expr).__name__)
 
 
+def table_unit(name):
+    """(SI scale, dimension vector) of a table symbol or an SI-prefixed prefixable table symbol. The scale is read from unyt's table
+    (its correctness is C02's subject), the prefix factor from the harness' own prefix table, the split is longest-symbol-first."""
+    from unyt._unit_lookup_table import default_unit_symbol_lut as lut
+    if name in lut:
+        return float(lut[name][0]), dimvec(lut[name][1])
+    for p in sorted(PREFIX, key=len, reverse=True):
+        b = name[len(p):]
+        if name.startswith(p) and b in lut and lut[b][4]:
+            return PREFIX[p] * float(lut[b][0]), dimvec(lut[b][1])
+    raise KeyError(name)
+
+
+# same-dimension table pairs whose ratio is not a whole number (either way round), plus a few whole-number ones
+RATIO_PAIRS = [("mile", "km"), ("inch", "cm"), ("yr", "day"), ("pc", "AU"), ("kg", "lb"), ("m", "ft"), ("oz", "g"), ("atm", "bar"), ("cal", "J"),
+               ("pc", "ly"), ("rad", "degree"), ("psi", "Pa"), ("nmi", "km"), ("m", "yd"), ("hp", "W"), ("lbf", "N"), ("mile", "furlong"), ("Msun", "Mjup"),
+               ("fortnight", "day"), ("week", "day"), ("hr", "min"), ("yr", "week")]
+
+
 def numeric_coefficient(expr):
     """the numeric factor of a unit expression as sympy sees it (1 = no coefficient)"""
     c, _ = expr.as_coeff_Mul()
